@@ -610,8 +610,19 @@ def parse_tree_to_objgraph(
         """
         line, col = parser.pos_to_linecol(nt.position)
         if isinstance(nt, Terminal):
+            from arpeggio import RegExMatch
+
+            value = nt.value
+            if (
+                metamodel.use_regexp_group
+                and isinstance(nt.rule, RegExMatch)
+                and nt.rule.regex.groups == 1
+            ):
+                # A regular expression with exactly one group is replaced by
+                # the group wherever it stands in a match rule.
+                value = nt.extra_info.group(1)
             return metamodel.process(
-                nt.value, nt.rule_name, filename=parser.file_name, line=line, col=col
+                value, nt.rule_name, filename=parser.file_name, line=line, col=col
             )
         else:
             # If RHS of assignment is NonTerminal it is a product of
